@@ -18,6 +18,7 @@ import (
 	"verif/harness/internal/sched"
 	"verif/harness/internal/taskrun"
 	"verif/harness/internal/timed"
+	"verif/harness/internal/watch"
 )
 
 type engine func(env *core.Env, rep *core.Report) *core.Result
@@ -31,7 +32,7 @@ var engines = map[string]engine{
 	"C12": cancel.Check,
 	"C14": contexts.Check,
 	"C15": loader.CheckC15, "C16": loader.CheckC16, "C17": loader.CheckC17,
-	"C19": decor.Check, "C18": loader.CheckC18,
+	"C19": decor.Check, "C20": watch.Check, "C18": loader.CheckC18,
 	"C13": timed.Check,
 }
 
